@@ -7,8 +7,9 @@
 //     (`poll_ready`, `write`, `poll_write`, `poll_flush`, `poll_shutdown`) returns first thing
 //     (`sender.as_mut().map_err(|e| e.clone())?`) — and a second `on_conn_error(e2)` neither
 //     replaces it nor wakes anybody,
-//   * `Outgoing::try_load_data_into` emits nothing and reports "no signal to wait for",
-//     ack / loss / window / STOP_SENDING feedback is ignored.
+//   * a STOP_SENDING that arrives afterwards produces no RESET_STREAM, no frame is queued, the
+//     transport is not poked. (`try_load_data_into` / ack / loss feedback after the error: written,
+//     did not finish on the shared machine, not registered.)
 // Streams that had already finished (DataRcvd) or were reset keep their own final state (their
 // Writer operations complete immediately with that state; nobody can be parked on them).
 use bytes::BufMut;
@@ -130,20 +131,6 @@ impl<'a> RecordFrame<Frame<&'a [Bytes]>, &'a [Bytes]> for Packet {
     fn record_frame(&mut self, _frame: &Frame<&'a [Bytes]>) {
         self.frames += 1;
     }
-}
-
-/// CBMC cannot constant-fold the state behind `Arc<Mutex<..>>` (heap objects are byte arrays to it),
-/// so it walks every arm of every `match` on the sender state even when only one is feasible. The
-/// data paths that cannot run once the state is the connection error (or a final state) are
-/// replaced by stubs that FAIL when reached: the cut cannot hide anything.
-fn stub_encoding_strategy(_f: &StreamFrame, _capacity: usize) -> qbase::frame::EncodingStrategy {
-    panic!("a frame is written after the connection error")
-}
-fn stub_sndbuf_acked(_b: &mut SendBuf, _r: &Range<u64>) {
-    panic!("data path reached after the connection error")
-}
-fn stub_sndbuf_loss(_b: &mut SendBuf, _r: &Range<u64>) {
-    panic!("data path reached after the connection error")
 }
 
 /// Which wakers are parked: bit 0 writable (task 0), bit 1 flush (task 1), bit 2 shutdown (task 2).
@@ -295,79 +282,8 @@ macro_rules! poison_harness {
 }
 
 poison_harness!(c17_outgoing_poison_ready, 0);
-poison_harness!(c17_outgoing_poison_sending, 1);
-poison_harness!(c17_outgoing_poison_data_sent, 2);
 poison_harness!(c17_outgoing_poison_data_rcvd, 3);
-poison_harness!(c17_outgoing_poison_reset_sent, 4);
-poison_harness!(c17_outgoing_poison_reset_rcvd, 5);
 
-/// Feedback that arrives for frames still in flight when the connection failed (acknowledgement,
-/// loss report, MAX_STREAM_DATA, 0-RTT revision, STOP_SENDING, RESET_STREAM ack is excluded: the
-/// real code marks it unreachable) is ignored: the state stays the connection error.
-#[kani::proof]
-#[kani::unwind(6)]
-#[kani::stub(std::sync::Mutex::lock, stub_mutex_lock)]
-#[kani::stub(qbase::net::tx::ArcSendWakers::wake_all_by, stub_wake_all_by)]
-#[kani::stub(alloc::fmt::format, stub_fmt)]
-#[kani::stub(core::slice::index::slice_index_fail, stub_slice_index_fail)]
-#[kani::stub(tracing::callsite::DefaultCallsite::interest, stub_tr_interest)]
-#[kani::stub(tracing::__macro_support::__is_enabled, stub_tr_enabled)]
-#[kani::stub(tracing::Event::dispatch, stub_tr_dispatch)]
-#[kani::stub(crate::send::sndbuf::SendBuf::on_data_acked, stub_sndbuf_acked)]
-#[kani::stub(crate::send::sndbuf::SendBuf::may_loss_data, stub_sndbuf_loss)]
-fn c17_outgoing_feedback_after_error() {
-    let k1 = any_kind();
-    let arc: ArcSender<Broker> = ArcSender(Arc::new(Mutex::new(Err(conn_error(k1)))));
-    let outgoing = Outgoing::new(arc.clone());
-    let sid = any_sid();
-    let mut frame = StreamFrame::new(sid, 0, 3);
-    frame.set_eos_flag(kani::any());
-    assert!(!outgoing.on_data_acked(&frame), "an acknowledgement after the error completes nothing");
-    outgoing.may_loss_data(&frame);
-    outgoing.update_window(kani::any::<u32>() as u64);
-    outgoing.revise_max_stream_data(kani::any(), kani::any::<u32>() as u64);
-    assert!(outgoing.be_stopped(0).is_none(), "STOP_SENDING after the error: no RESET_STREAM");
-    assert!(unsafe { RESETS } == 0 && unsafe { RAISED } == 0, "no frame is queued, the transport is not poked");
-    let guard = arc.sender();
-    match &*guard {
-        Err(e) => assert!(e.kind() == k1, "the state stays the connection error"),
-        Ok(_) => panic!("revived"),
-    }
-    kani::cover!(frame.is_fin(), "late FIN acknowledgement");
-    drop(guard);
-    core::mem::forget(outgoing);
-    core::mem::forget(arc);
-}
-
-/// After the connection error `try_load_data_into` emits nothing and reports "no signal to wait
-/// for" (the packet assembler must not be parked on a dead stream).
-#[kani::proof]
-#[kani::unwind(6)]
-#[kani::stub(std::sync::Mutex::lock, stub_mutex_lock)]
-#[kani::stub(qbase::net::tx::ArcSendWakers::wake_all_by, stub_wake_all_by)]
-#[kani::stub(alloc::fmt::format, stub_fmt)]
-#[kani::stub(core::slice::index::slice_index_fail, stub_slice_index_fail)]
-#[kani::stub(tracing::callsite::DefaultCallsite::interest, stub_tr_interest)]
-#[kani::stub(tracing::__macro_support::__is_enabled, stub_tr_enabled)]
-#[kani::stub(tracing::Event::dispatch, stub_tr_dispatch)]
-#[kani::stub(qbase::frame::StreamFrame::encoding_strategy, stub_encoding_strategy)]
-fn c17_outgoing_load_after_error() {
-    let k1 = any_kind();
-    let arc: ArcSender<Broker> = ArcSender(Arc::new(Mutex::new(Err(conn_error(k1)))));
-    let outgoing = Outgoing::new(arc.clone());
-    let cap: usize = kani::any();
-    kani::assume(cap <= 64);
-    let mut packet = Packet { cap, pos: 0, frames: 0, dummy: [0] };
-    let flow_limit: usize = kani::any();
-    let tokens: usize = kani::any();
-    kani::assume(tokens >= 1);
-    let res = outgoing.try_load_data_into(&mut packet, any_sid(), flow_limit, tokens);
-    assert!(res == Err(Signals::empty()), "after a connection error there is no signal to wait for");
-    assert!(packet.pos == 0 && packet.frames == 0, "no stream data is emitted after the connection error");
-    let guard = arc.sender();
-    assert!(matches!(&*guard, Err(e) if e.kind() == k1));
-    kani::cover!(cap >= 25, "room for a frame");
-    drop(guard);
-    core::mem::forget(outgoing);
-    core::mem::forget(arc);
-}
+// NOT REGISTERED (written, did not finish in 900 s on the shared machine; see props/C17.toml `outside`):
+// the same step for the states Sending / DataSent / ResetSent / ResetRcvd (`poison_harness!(name, 1|2|4|5)`),
+// `Outgoing::try_load_data_into` and ack / loss / window feedback after the error.
